@@ -42,7 +42,7 @@ type c12State struct {
 
 func runC12(c *Ctx) {
 	c.Clauses = []string{
-		"C12.a every frame-phase sequence the renderer can write under the capability set the emulator itself advertises (EMU, computed by C12.c) is handled by the emulator: symbolic execution of Model.update on the sequence (constants + numbered holes, `3%d`-style heads expanded over the range their guards allow) reaches a case on every path, has an effect on some path, logs no error and indexes nothing out of range; option fields that gate a handler default to the enabling value",
+		"C12.a every frame-phase sequence the renderer can write under the capability set the emulator itself advertises (EMU, computed by C12.c) is handled by the emulator: symbolic execution of Model.update on the sequence (constants + numbered holes, `3%d`-style heads expanded over the range their guards allow) reaches a case on every path, has an effect on some path, logs no error and indexes nothing out of range; option fields that gate a handler default to the enabling value; handlers driven by a package-level table are evaluated row by row, whether the table is a composite literal or is built by init() (make, stores, delete, read-modify-write) and only read afterwards",
 		"C12.b DECSET/DECRST (and SM/RM) have the same key set and write the same mode fields with true/false; DECRQM (decided on its replies, whether the lookup is a switch, a helper or a table) reports a mode with state from the field set/reset write, 1 for true and 2 for false, and reports 0 (not recognised) for every mode set/reset do not implement",
 		"C12.c the start-up dialogue: every start-up sequence of Vaxis is run through the emulator, every reply through Vaxis.handleSequence; no reply is rejected; the capability events posted define EMU; an advertised capability is implemented for what Vaxis then emits (sixel: the DCS q arm hands the three-parameter introducer to the decoder unchanged); cursor-position report: same fields as CUP, +1/−1, same order at every hop; OSC colour reply has the format Vaxis scans",
 		"C12.d Draw copies activeScreen[r][c] to window cell (c, r) over the whole grid and shows the cursor only under the DECTCEM field and focus, passing the emulator's cursor fields in the order of the window API",
@@ -91,6 +91,7 @@ func runC12(c *Ctx) {
 	}
 	st.expandSites()
 	st.expandTables()
+	c12LastEms = st.ems
 	st.caps = st.computeEMU()
 	for k, v := range st.caps {
 		c.info("EMU caps.%s = %s (%s)", k, v.status, v.why)
